@@ -1077,6 +1077,44 @@ impl Ctx {
                 }
                 return;
             }
+            ["schemastat", path] => {
+                // what is there, in the terms of Setup.v, looked at on a scratch COPY (opening a database
+                // recovers and checkpoints its write-ahead log: the directory itself is left as it was found)
+                let src = std::path::PathBuf::from(path);
+                let dbname = "taskchampion-sync-server.sqlite3";
+                let line = if !src.is_dir() {
+                    "dir=0 file=0 wal=0 clients=0 versions=0 index=0".to_string()
+                } else if !src.join(dbname).exists() {
+                    "dir=1 file=0 wal=0 clients=0 versions=0 index=0".to_string()
+                } else {
+                    let tmp = tempfile::TempDir::new().expect("schemastat tmp");
+                    for e in std::fs::read_dir(&src).expect("schemastat read_dir") {
+                        let e = e.unwrap();
+                        if e.path().is_file() {
+                            let _ = std::fs::copy(e.path(), tmp.path().join(e.file_name()));
+                        }
+                    }
+                    let r = rusqlite::Connection::open(tmp.path().join(dbname)).and_then(|c| {
+                        let jm: String = c.query_row("PRAGMA journal_mode", [], |r| r.get(0))?;
+                        let mut names: Vec<String> = vec![];
+                        {
+                            let mut st = c.prepare("SELECT name FROM sqlite_master")?;
+                            let mut rows = st.query([])?;
+                            while let Some(r) = rows.next()? {
+                                names.push(r.get::<_, String>(0)?);
+                            }
+                        }
+                        Ok((jm, names))
+                    });
+                    match r {
+                        Ok((jm, names)) => format!("dir=1 file=1 wal={} clients={} versions={} index={}", (jm.eq_ignore_ascii_case("wal")) as u8,
+                            names.iter().any(|n| n == "clients") as u8, names.iter().any(|n| n == "versions") as u8, names.iter().any(|n| n == "versions_by_parent") as u8),
+                        Err(e) => format!("unreadable:{}", e.to_string().replace(' ', "_")),
+                    }
+                };
+                self.emit("mark schemastat".to_string(), format!("schema {line}"));
+                return;
+            }
             ["lockfor", ms] => {
                 // another connection holds SQLite's write lock for MS milliseconds, starting now (a backup, a
                 // long transaction of another instance): requests arriving meanwhile have to wait for it
